@@ -1,5 +1,8 @@
 use crate::definition::Definition;
 use oal_syntax::atom::Ident;
+#[cfg(feature = "verif")]
+use oal_model::verif::ChoiceMap as HashMap;
+#[cfg(not(feature = "verif"))]
 use std::collections::HashMap;
 
 #[derive(Debug, PartialEq, Eq, Hash)]
